@@ -69,6 +69,7 @@ def walk(e, fn):
 
 class Check(PropertyCheck):
     id = "C08"
+    thorough_mult = 3
     lean_modules = ["Svgbob.Properties.C08"]
     assumptions = [
         "closed vocabulary holds in the model by typing; the model's serializer is tied byte-for-byte to the "
